@@ -22,6 +22,19 @@ for pid,what in [("C04","the real appendEntries handler over all small follower/
                  ("C11","the real compactLogsWithTrailing over every first/last/snapshot/trailing combination")]:
     claimed[pid] = ("model_checking","vsched-dbdfs+enum", cluster_text+" In addition: exhaustive enumeration of "+what+".", cluster_note, tech_cluster+"; plus "+tech_enum)
 claimed["C06"] = ("model_checking","enum+vsched-dbdfs","Exhaustive enumeration on the real vote/pre-vote/append handlers: every small durable state x message sequence x fault placement (write error, crash before/after each stable-store write, restart from the durable image); plus the cluster explorations with the vote monitor on.","Bounded alphabets (see evidence assumptions); handlers driven synchronously on a Raft built without goroutines.",tech_enum+"; plus "+tech_cluster)
+fine_text = ("Exhaustive exploration of thread interleavings of the real implementation: from the scripted race on, every select, lock and wait of every "
+  "goroutine of the server and of the client threads is a scheduling decision of the explorer (preemption/choice bound 1 quick, 2 thorough); each public call races Shutdown() "
+  "and is issued again after Shutdown completed; a caller is reported when nothing can ever wake it.")
+claimed["C17"] = ("model_checking","vsched-dbdfs",fine_text,"2 voters, one call kind per scenario, buffered and unbuffered apply channel; bounded preemptions; plus coarse exploration of calls racing a step-down.","stateless model checking of the implementation: controlled scheduler with preemption-bounded DFS over every select/lock/wait")
+claimed["C18"] = ("model_checking","vsched-dbdfs",cluster_text+" NotifyCh consumers are threads whose reads are granted by the explorer (every consumer speed within the bound).",cluster_note,tech_cluster)
+claimed["C09"] = ("model_checking","vsched-dbdfs",cluster_text+" Scenarios: 2 voters + 1 non-voter with the leader cut off from the other voter; 3 voters with network deviations around the call; heartbeat acknowledgements withheld and delivered after the call while a new leader exists.",cluster_note,tech_cluster)
+claimed["C20"] = ("model_checking","vsched-dbdfs",cluster_text+" Scenarios: snapshot index below / equal / above the last index, gap-tolerant and monotonic stores, an Apply in flight, a lagging follower, Restore during an uncommitted membership change.",cluster_note,tech_cluster)
+timed_text = ("Exhaustive exploration in a timed regime: virtual clock, timers fire strictly in deadline order; the explorer chooses the instant of the fault among all quiescent "
+  "instants with a stable leader (one execution per instant) and the timeout jitter; the bound on virtual time is checked on every execution.")
+timed_note = "3-5 servers; HeartbeatTimeout=ElectionTimeout=LeaderLeaseTimeout=100ms; message delivery and thread steps take no virtual time; per-server jitter fixed and distinct (deviation: near maximum)."
+claimed["C13"] = ("model_checking","vsched-dbdfs",timed_text,timed_note,tech_cluster+" (timed regime)")
+claimed["C14"] = ("model_checking","vsched-dbdfs",timed_text,timed_note,tech_cluster+" (timed regime)")
+claimed["C15"] = ("fault_enumeration","crashfs","Crash-image enumeration on the real FileSnapshotStore: os is replaced by an in-memory file system that logs every operation; for every prefix of the log and every combination of surviving un-synced effects the image is opened by a fresh store and checked (List/Open/bytes/order/retain/durability), plus corrupted state and metadata files.","Durability model stated in the evidence assumptions (fsync(file) persists data + own entry, fsync(dir) persists earlier entry operations, per-directory/per-file ordering, atomic rename); histories of <=2 (3 thorough) snapshots.","exhaustive crash-point x surviving-effects enumeration (fault enumeration) on the implementation")
 claimed["C19"] = ("model_checking","enum","Explicit-state BFS to the fixpoint over the real LogCache: every reachable canonical state, every operation compared with the uncached backend.","Index range and capacities bounded; canonical state abstracts payloads to equality with the backend entry.",tech_enum)
 
 checks=[]
